@@ -1,5 +1,6 @@
 import PyxisVerif.Spec.C09
 import PyxisVerif.Lemmas.C09
+import PyxisVerif.Props.C09Novft
 /-!
 # C09 – the output is a deterministic function of the input set
 
